@@ -138,6 +138,9 @@ LimitMenu == { [s EXCEPT !.limit = n] : s \in {PlainKV,
                                                Agg(<<CountStar>>, <<K>>, NoE, NoH, TRUE, NoLimit, "none"),
                                                Agg(<<KeyK, [a |-> "percentile", e |-> V, pn |-> 1, pd |-> 2, as |-> "p50", wrap |-> NoE]>>, <<K>>, NoE, NoH, FALSE, NoLimit, "none"),
                                                Agg(<<KeyK, CountV>>, <<K>>, NoE, NoH, FALSE, NoLimit, "none")}, n \in 0..3 }
+             \* a LIMIT beyond every size (2000000001 / 2000000002 are rendered as i64::MAX / 2^62): all rows, nothing is sized by the number
+             \cup { [s EXCEPT !.limit = n] : s \in {PlainKV, Sel(<<P(K, "")>>, NoE, TRUE, NoLimit, "none"), Agg(<<KeyK, CountStar>>, <<K>>, NoE, NoH, FALSE, NoLimit, "none"),
+                                                     Agg(<<CountStar>>, <<K>>, NoE, NoH, TRUE, NoLimit, "none")}, n \in {2000000001, 2000000002} }
 \* an aggregate's LIMIT counts the rows that DISTINCT / HAVING let through: groups whose rows coincide must not use up the limit
 LimitDistinctMenu == { [s EXCEPT !.limit = n] : s \in {Agg(<<CountStar>>, <<K>>, NoE, NoH, TRUE, NoLimit, "none"),
                                                         Agg(<<CountStar, MaxOfV>>, <<K>>, NoE, HAgg(CountStar, ">=", IntV(1)), TRUE, NoLimit, "none"),
@@ -508,6 +511,26 @@ JoinUnionMenu == JoinMenu \cup LimitJoinMenu
 LinesUnion == {KV(A, IntV(1)), KV(A, IntV(2)), KV(B, IntV(1)), KV(B, IntV(3)), KV(A, IntV(-1)), KV(B, IntV(31)), KV(A, IntV(32)), KV(Null, IntV(2)), KV(A, Null), KV(Null, Null), KV(AB, IntV(10)),
                KV(B, IntV(0)), Garbage, Empty, Near}
 
+\* ---- scale (configuration scale): one input of 1 400 lines over 1 301 distinct keys in scrambled order (about a hundred of them recur far apart), values 0..6 --
+\* more groups, distinct rows and distinct values than any in-memory shortcut of the code is sized for (tens, hundreds, 1 024 ...); the statements keep the
+\* first rows of such a result (LIMIT with and without DISTINCT / HAVING), count and deduplicate them
+BigKey(i) == TextV(IntText((i * 37) % 1301))
+BigInput == [i \in 1..1400 |-> KV(BigKey(i), IntV(i % 7))]
+BigInputs == {<<BigInput>>}
+ScaleMenu == {
+  Agg(<<ItE("max", V, "hi"), CountStar>>, <<K>>, NoE, NoH, TRUE, 2, "none"),          \* rows (6, 1), (6, 2): the first rows of the full result come from groups far apart
+  Agg(<<ItE("max", V, "hi"), CountStar>>, <<K>>, NoE, NoH, TRUE, 9, "none"),
+  Agg(<<KeyK, CountStar>>, <<K>>, NoE, NoH, FALSE, 3, "none"),
+  Agg(<<KeyK, SumV>>, <<K>>, NoE, HAgg(CountStar, ">=", IntV(2)), FALSE, 3, "none"),
+  Agg(<<KeyK, CountStar>>, <<K>>, NoE, NoH, FALSE, NoLimit, "none"),
+  Agg(<<ItC("count_distinct", "k", "d"), ItC("count_distinct", "v", "dv"), CountStar>>, <<>>, NoE, NoH, FALSE, NoLimit, "none"),
+  Agg(<<PctIt(1, 2), PctIt(999, 1000)>>, <<>>, NoE, NoH, FALSE, NoLimit, "none"),
+  Sel(<<P(K, "")>>, NoE, TRUE, NoLimit, "none"),
+  Sel(<<P(K, "")>>, NoE, TRUE, 1250, "none"),
+  Sel(<<P(V, "")>>, NoE, TRUE, 7, "none"),
+  Agg(<<ItE("key", V, "v"), ItC("count_distinct", "k", "d"), MinK, MaxK>>, <<V>>, NoE, NoH, FALSE, NoLimit, "none")
+}
+
 \* ---- generated statements (configurations gen / gen-join) ----------------------------------------------------------------------------------
 \* Every clause is drawn independently from a pool (TLC's RandomElement / RandomSubset, reproducible under -seed), so that features meet in
 \* combinations no hand-written menu lists: projections x WHERE x DISTINCT x LIMIT x GROUP BY keys (plain, two, expressions that are not shown)
@@ -521,7 +544,7 @@ GenExprsJ == {W, Col("u.k"), Col("t.k"), Arith("+", V, W), Col("u.w"), CmpE("=",
 GenWheres == {VPos, CmpE("=", K, Lit(A)), IsE(TRUE, V, Lit(Null)), BoolE("or", IsE(FALSE, K, Lit(Null)), CmpE(">", V, One)), NotE(CmpE("=", K, Lit(B))),
               InE(FALSE, V, <<One, Two>>), InE(TRUE, V, <<One, Lit(Null)>>), CmpE("<", Arith("/", Lit(IntV(4)), V), Two), CmpE("!=", V, One)}
 GenWheresJ == {CmpE(">", W, Zero), IsE(FALSE, W, Lit(Null)), CmpE("=", V, W), IsE(TRUE, W, Lit(Null))}
-GenLimits == {0, 1, 2, 3}
+GenLimits == {0, 1, 2, 3, 2000000001}
 CNames == <<"c1", "c2", "c3">>
 GenWhere(j) == IF RandomElement(1..10) <= 4 THEN NoE ELSE IF j # "none" /\ RandomElement(1..10) <= 4 THEN RandomElement(GenWheresJ) ELSE RandomElement(GenWheres)
 GenLimit(j) == IF RandomElement(1..10) <= 6 THEN NoLimit ELSE RandomElement(GenLimits)      \* (a parameter: TLC evaluates a definition without parameters only once)
